@@ -120,6 +120,17 @@ fn copy_cases<W: WX>(ctx: &mut Ctx, widths: &[usize], exhaustive: bool) {
                 }
             }
         }
+        // lengths close to usize::MAX ("everything that fits"): the clipping must not overflow, whatever the offsets
+        let froms: Vec<usize> = triples.iter().map(|t| t.0).collect::<std::collections::BTreeSet<_>>().into_iter().collect();
+        for &from in &froms {
+            for to in [0usize, 1, n / 2, n, n + 1] {
+                for len in [usize::MAX, usize::MAX - 1, usize::MAX - from, usize::MAX - to, (usize::MAX - to).wrapping_add(1), usize::MAX / 2 + 1] {
+                    if to <= n + 1 {
+                        triples.push((from, to, len));
+                    }
+                }
+            }
+        }
         for backend in 0..3 {
             // one case per (W, width, backend, from): inner loop over (to, len)
             let mut by_from: std::collections::BTreeMap<usize, Vec<(usize, usize)>> = Default::default();
